@@ -107,6 +107,7 @@ func TestVerifC18KeyRoundTrip(t *testing.T) {
 			for name, rd := range readers {
 				r.Eval()
 				r.Nontrivial(fmt.Sprintf("pub|%d|%v|%s", bases, rev, name))
+				r.Outcome(fmt.Sprintf("public key:%s:revocation part=%v", name, rev))
 				var got *PublicKey
 				var err error
 				if pan, msg := vkit.Guard(func() { got, err = rd() }); pan {
@@ -139,6 +140,7 @@ func TestVerifC18KeyRoundTrip(t *testing.T) {
 				} {
 					r.Eval()
 					r.Nontrivial(fmt.Sprintf("priv|%d|%v|%s|%v", bases, rev, name, demo))
+					r.Outcome(fmt.Sprintf("private key:%s:revocation part=%v:demo=%v", name, rev, demo))
 					got, err := rd()
 					if err != nil {
 						r.Violate("C18|written-key-not-readable|"+name, err.Error(), bases)
